@@ -100,6 +100,10 @@ def check(ctx):
         tail = (zlib.crc32(fr) & 0xffffffff).to_bytes(4, "little") if fcs else b""
         lines.append("cls 1 " + ((pre + fr + tail).hex() or "-"))
     fw.run_suite(ctx, exe, "S-cls/radiotap-fields", lines, "frame classification")
+    # the result may not depend on where the capture lies in memory (alignment is relative to the header start)
+    for k in (1, 4):
+        sub = lines[k::3][:1500]
+        fw.run_suite(ctx, exe, "S-cls/radiotap-fields@+%d" % k, sub, "frame classification of a capture at a misaligned address", env={"LWV_MISALIGN": str(k)})
     # radiotap mode on frames without a radiotap header and vice versa
     mixed = []
     for _ in range(2000):
